@@ -7,6 +7,9 @@ LEVEL = 'exploration'
 TIERS = {'quick': dict(runs=4000, budget_s=150, chunk=50, selftest=6),
          'thorough': dict(runs=400000, budget_s=1500, chunk=200, selftest=16)}
 
+# second, independent generator (simkit/hyp.py): (processes, examples per process) per tier
+HYP = dict(want='C02', force_2d=False, quick=(16, 120), thorough=(16, 4000))
+
 
 def generate(run_seed, tier, index):
     return hist.generate(run_seed)
